@@ -324,6 +324,137 @@ def check_lang(rec, http, DS, ranges, offers):
     check_order(rec, acc, ranges, l_spec, case, "language")
 
 
+def concurrent_negotiation(rec, rng, http, DS, rounds):
+    """Schedule + history.  (a) One parsed Accept object is asked by four threads at once, right after it was made
+    (whatever it prepares lazily on its first negotiation is prepared under their feet): every thread gets the answer
+    a sequential negotiation gives.  (b) Many clients with many different charset names are served on two threads,
+    then hundreds more sequentially: the answers for well-known aliases stay what they were."""
+    import sys
+    import threading
+    import time
+
+    from werkzeug.datastructures import accept as ACC
+
+    mon = getattr(sys, "monitoring", None)
+    TOOL = 5
+    codes, inj, armed = [], [0], [False]
+    if mon is not None:
+        try:
+            mon.use_tool_id(TOOL, "verif-yield-c17")
+            for obj in vars(ACC).values():
+                if isinstance(obj, type) and obj.__module__ == ACC.__name__:
+                    codes += [f.__code__ for f in vars(obj).values() if hasattr(f, "__code__") and f.__name__ not in ("__init__", "__repr__")]
+                elif hasattr(obj, "__code__") and getattr(obj, "__module__", "") == ACC.__name__:
+                    codes.append(obj.__code__)
+            for c in list(codes):
+                codes += [k for k in c.co_consts if hasattr(k, "co_code")]
+
+            def on_line(code, line):
+                if armed[0]:
+                    inj[0] += 1
+                    if inj[0] % 3 == 0:
+                        time.sleep(0)
+
+            mon.register_callback(TOOL, mon.events.LINE, on_line)
+            for c in codes:
+                mon.set_local_events(TOOL, c, mon.events.LINE)
+        except ValueError:
+            mon = None
+    old_si = sys.getswitchinterval()
+    sys.setswitchinterval(1e-5)
+    try:
+        # ---- (a) first negotiations on one object
+        for rnd in range(rounds):
+            fam, cls, pool, offers_pool = rng.choice([("mime", DS.MIMEAccept, MEDIA, OFF_M), ("language", DS.LanguageAccept, LANG, OFF_L),
+                                                      ("charset", DS.CharsetAccept, ["utf-8", "latin1", "*", "us-ascii", "x-unknown"], ["utf-8", "latin1", "ascii"])])
+            hdr = header_of([(rng.choice(pool), rng.choice([None, "0.5", "0.9", "0", "1"])) for _ in range(rng.randint(2, 5))])
+            offers = rng.sample(offers_pool, min(3, len(offers_pool)))
+            seq = http.parse_accept_header(hdr, cls)
+            expected = (seq.best_match(offers, default="<default>"), [seq.quality(o) for o in offers])
+            shared = http.parse_accept_header(hdr, cls)
+            barrier = threading.Barrier(4)
+            res = {}
+
+            def ask(i):
+                barrier.wait()
+                try:
+                    res[i] = (shared.best_match(offers, default="<default>"), [shared.quality(o) for o in offers])
+                except Exception as e:  # noqa: BLE001
+                    res[i] = f"{type(e).__name__}: {e}"
+
+            ts = [threading.Thread(target=ask, args=(i,)) for i in range(4)]
+            armed[0] = True
+            try:
+                for t in ts:
+                    t.start()
+                for t in ts:
+                    t.join(60)
+            finally:
+                armed[0] = False
+            rec.case()
+            rec.observe("concurrent_first_negotiations")
+            rec.nontrivial(("conc-neg", fam, hdr, tuple(offers)))
+            for i, got in res.items():
+                if got != expected:
+                    rec.violation(f"C17/{fam}:concurrent-first-negotiation-differs", f"{hdr!r} offers {offers!r}: thread {i} got {got!r}, sequentially {expected!r}",
+                                  {"family": fam, "header": hdr, "offers": offers}, monitor="schedule-stress")
+                    break
+        # ---- (b) many charset names, first on two threads, then sequentially
+        probes = [("US-ASCii;q=0.9, utf-16;q=0.5, *;q=0.1", ["us_ascii", "utf_16"], "us_ascii"), ("Latin-1, utf8;q=0.5", ["utf-8", "iso8859-1"], "iso8859-1"),
+                  ("UTF8;q=0.3, ascii", ["utf-8", "us-ascii"], "us-ascii")]
+        import codecs as _codecs
+        import encodings.aliases as _aliases
+
+        def _known(nm):
+            try:
+                _codecs.lookup(nm)
+                return True
+            except Exception:  # noqa: BLE001
+                return False
+
+        valid = [nm for nm in sorted(_aliases.aliases) if _known(nm)]  # a few hundred names the codec registry knows
+        names = [f"x-charset-{j}" for j in range(20)] + valid[:180]
+        later = valid[180:] + [nm.upper() for nm in valid] + [nm.replace("_", "-") for nm in valid if "_" in nm]
+
+        def serve(name):
+            a = http.parse_accept_header(f"{name};q=0.9, utf-8;q=0.5", DS.CharsetAccept)
+            a.best_match(["utf-8", name.upper()])
+
+        def many(i):
+            for nm in names:  # both threads meet every new name at about the same time
+                serve(nm)
+
+        ts = [threading.Thread(target=many, args=(i,)) for i in range(2)]
+        armed[0] = True
+        try:
+            for t in ts:
+                t.start()
+            for t in ts:
+                t.join(120)
+        finally:
+            armed[0] = False
+        bad = None
+        for j, nm in enumerate(later[:600]):
+            serve(nm)
+            for hdr, offers, exp in probes:
+                got = http.parse_accept_header(hdr, DS.CharsetAccept).best_match(offers)
+                if got != exp and bad is None:
+                    bad = (j, hdr, offers, got, exp)
+        rec.case()
+        rec.observe("charset_clients_served", 2 * len(names) + min(600, len(later)))
+        rec.nontrivial(("charset-history", len(names)))
+        if bad:
+            rec.violation("C17/charset:answer-depends-on-earlier-clients", f"after {2 * len(names)} clients on two threads and {bad[0]} more: {bad[1]!r} offers {bad[2]!r} chose {bad[3]!r}, a fresh process chooses {bad[4]!r}",
+                          {"family": "charset", "header": bad[1], "offers": bad[2]}, monitor="history")
+    finally:
+        sys.setswitchinterval(old_si)
+        if mon is not None:
+            for c in codes:
+                mon.set_local_events(TOOL, c, 0)
+            mon.free_tool_id(TOOL)
+    rec.observe("concurrent_injected_yields", inj[0])
+
+
 def run(shard, rec, rng):
     from werkzeug import datastructures as DS
     from werkzeug import http
@@ -334,6 +465,8 @@ def run(shard, rec, rng):
                         "CharsetAccept._value_matches": opt(lambda: DS.CharsetAccept._value_matches)})
     DS_Accept[0] = DS.Accept
     cfg = TIERS[shard["_tier"]]
+    if shard["index"] % 4 == 1:
+        concurrent_negotiation(rec, rng, http, DS, 25 if shard["_tier"] == "quick" else 150)
     CH = ["utf-8", "utf8", "latin1", "iso-8859-1", "*", "ascii", "us-ascii", "x-unknown"]
     ENC = ["gzip", "br", "identity", "*", "deflate", "GZIP"]
     fams = [
